@@ -87,6 +87,9 @@ func ZZ_C11_Restore() {
 	}
 	ref := zzverif.NewVT(w)
 	ref.Write(prompt+shown, zzverif.ASCIIWidth)
+	if (len(prompt)+len([]rune(shown)))%w == 0 {
+		sfx += "/row-exactly-filled"
+	}
 	zzverif.Note("out-row-col", string(rune('0'+vt.Row))+","+string(rune('0'+vt.Col))+" want row "+string(rune('0'+ref.Row+1)))
 	zzverif.Assert(vt.Col == 0, "cursor-at-column-0"+sfx)
 	// a fresh row below the input: strictly below the last input row (an input that exactly
